@@ -733,11 +733,21 @@ fn main() {
     let seed = args.u64("seed", 1);
     let n = args.usize("n", 100);
     let mut rng = Rng::new(seed ^ 0xC17);
+    // corpus: hand-written witnesses and past failures, run before everything else
+    let corpus: Vec<String> = std::fs::read_to_string(args.str("corpus", "/verif/corpus/C17/witnesses.json"))
+        .ok()
+        .and_then(|s| serde_json::from_str::<Vec<Value>>(&s).ok())
+        .map(|v| v.iter().filter_map(|e| e["text"].as_str().map(|s| s.to_string())).collect())
+        .unwrap_or_default();
     match args.cmd.as_str() {
         "corr" => {
             let mut ws = Ws::new();
-            let texts: Vec<String> =
-                FIXED.iter().map(|s| s.to_string()).chain((0..n).map(|_| gen_case(&mut rng).0)).collect();
+            let texts: Vec<String> = corpus
+                .iter()
+                .cloned()
+                .chain(FIXED.iter().map(|s| s.to_string()))
+                .chain((0..n).map(|_| gen_case(&mut rng).0))
+                .collect();
             for text in texts {
                 let Some(t0) = ws.ty(&text) else {
                     println!("{}", json!({"text": cps(&text), "panic": true}));
@@ -760,8 +770,12 @@ fn main() {
             let mut modes = [0usize; 6];
             let mut kinds: BTreeMap<String, usize> = BTreeMap::new();
             let (mut cases, mut checked, mut panics) = (0usize, 0usize, 0usize);
-            let texts: Vec<(String, usize)> =
-                FIXED.iter().map(|s| (s.to_string(), 0)).chain((0..n).map(|_| gen_case(&mut rng))).collect();
+            let texts: Vec<(String, usize)> = corpus
+                .iter()
+                .map(|s| (s.clone(), 0))
+                .chain(FIXED.iter().map(|s| (s.to_string(), 0)))
+                .chain((0..n).map(|_| gen_case(&mut rng)))
+                .collect();
             for (text, mode) in texts {
                 cases += 1;
                 modes[mode] += 1;
